@@ -300,7 +300,7 @@ def awaited_helpers(nodes, sc, mod):
 def _context_item(w, sc):
     """the item of a `with` statement that enters a fresh request context of the client (the callee, read over the names of the outermost caller, is `….new_request_context`)"""
     for i in (w.items if isinstance(w, ast.With) else ()):
-        if isinstance(i.context_expr, ast.Call) and "new_request_context" in u(lift(i.context_expr.func, sc)):
+        if "new_request_context" in u(lift(i.context_expr, sc)):
             return i
     return None
 
@@ -1434,7 +1434,9 @@ def run(chk):
     chk.explanation = (
         "Roles are located by data flow (which value reaches which Sample attribute through Sampler.add, positions of the schedule tuple and of the runner's result, clock "
         "reads), helpers of the executor / functions of the module are followed (an extracted sleep-until, progress selection, latency formula, ramp-up wait, result "
-        "normalisation, failure recorder), conditions are decided on representative values (scheduled time, time left, result / on_error / error flag, exception classes of "
+        "normalisation, failure recorder; the request itself - request context, runner invocation, reads of start / end, also the clock reads around it - extracted into a "
+        "coroutine the loop awaits directly: the awaiting statement takes the place of the `with` in the loop's control-flow graph, results are followed by position through "
+        "return tuples), a formula over the opaque result of a call is not recognised instead of wrong, conditions are decided on representative values (scheduled time, time left, result / on_error / error flag, exception classes of "
         "the library); a role that cannot be located is reported as not recognised (exit 2), never as a violation. "
         "Decides the timing formulas and their program order in the request loop against the definitions in docs/metrics.rst: service_time = request_end - request_start "
         "of the request's own context; processing_time = processing_end - processing_start bracketing that context; latency = request_end - (schedule start + scheduled time) iff "
@@ -1841,7 +1843,16 @@ def run(chk):
     # ---- O4.4 one sample per request -----------------------------------------------------------------------------------------------------------------
     chk.rule("O4.4", "on every normal path from the runner invocation to the next iteration or loop exit exactly one sampler.add call is passed", 3,
              "requests without a sample (lost) or with two samples (double counted)")
-    chk.ob("O4.4", "single sampler.add site in the loop", len(adds) == 1, addc, f"{len(adds)} site(s)")
+    # several sites are one sample per request as long as no path of an iteration passes two of them (the arms of an if / else); then the field flow would have to be
+    # decided per site: not recognised. Two sites on one path count the request twice: located and wrong.
+    ans = [g.node_of(c) for c in adds]
+    twice = [(a, b) for i, a in enumerate(ans) for j, b in enumerate(ans) if i != j and g.path_exists(a, b, avoid=[Lh], edge_ok=g.normal_edge)]
+    exclusive_sites = len(adds) > 1 and not twice
+    if exclusive_sites:
+        not_located("O4.4", f"{len(adds)} mutually exclusive calls hand the sample of a request to the sampler (the field flow is only decided for the first one)", adds[1])
+    else:
+        chk.ob("O4.4", "single sampler.add site in the loop", len(adds) == 1, addc, f"{len(adds)} site(s)" + ("" if len(adds) == 1 else ", two of them on one path of an iteration"))
+
     def plain_nesting(stmt):
         """the statement is a statement of the loop body, possibly inside `with` blocks / the body or the finally clause of a `try` (which do not make it conditional on
         normal paths); inside an except handler, an else clause or any other compound statement it is not"""
@@ -1853,7 +1864,10 @@ def run(chk):
         return p_ is L
 
     ok = plain_nesting(source.enclosing_stmt(addc)) and not guards(addc, stop=L) and source.enclosing(addc, (ast.For, ast.While, ast.AsyncFor)) is L and add_always
-    chk.ob("O4.4", "sampler.add unconditional at loop-body level", ok, addc, f"guards={[(u(t), p) for t, p in guards(addc, stop=L)]}" + ("" if add_always else "; conditional inside the helper that records the sample"))
+    if not exclusive_sites:  # (whether SOME site is passed on every path is decided on the control-flow graph below)
+        chk.ob("O4.4", "sampler.add unconditional at loop-body level", ok, addc, f"guards={[(u(t), p) for t, p in guards(addc, stop=L)]}" + ("" if add_always else "; conditional inside the helper that records the sample"))
+    elif not all(al for _, _, al in handovers):
+        chk.ob("O4.4", "sampler.add unconditional at loop-body level", False, addc, "conditional inside the helper that records the sample")
     an = g.node_of(addc)
     wx = [wn] if req.in_helper else [n for n in g.by_ast.get(id(Wn), []) if n.kind == "with_exit"]  # where the request of the iteration is finished
     if not wx:
@@ -1861,12 +1875,12 @@ def run(chk):
     # (the rest of the iteration hangs in the synthetic else of the cancellation guard clause: only the breaks of the test's own arm belong to it)
     cancel_breaks = {id(x) for c_ in cancel_ifs for x in source.walk_explicit(c_) if isinstance(x, ast.Break)}
     breaks = [g.node_of(b) for b in ast.walk(L) if isinstance(b, ast.Break) and id(b) not in cancel_breaks and source.enclosing(b, (ast.For, ast.While, ast.AsyncFor)) is L]
-    ok = all(Lh.id not in g.reachable([w], avoid=[an], edge_ok=g.normal_edge) for w in wx)
+    ok = all(Lh.id not in g.reachable([w], avoid=ans, edge_ok=g.normal_edge) for w in wx)
     chk.ob("O4.4", "no path from the finished request to the next iteration bypasses sampler.add", ok, addc, "")
     # a break leaves a request unsampled only if it lies between the request and sampler.add (a break before the request was issued loses nothing)
-    lost = [b for b in breaks if any(g.path_exists(w, b, avoid=[an, Lh], edge_ok=g.normal_edge) for w in wx)]
+    lost = [b for b in breaks if any(g.path_exists(w, b, avoid=ans + [Lh], edge_ok=g.normal_edge) for w in wx)]
     chk.ob("O4.4", "no break between the finished request and its sample", not lost, addc, f"{len(breaks)} break(s) in the loop, {len(lost)} between request and sampler.add")
-    chk.ob("O4.4", "sample recorded after the request context closed", g.dominated_by_nodes(an, wx), addc, "")
+    chk.ob("O4.4", "sample recorded after the request context closed", all(g.dominated_by_nodes(a_, wx) for a_ in ans), addc, "")
 
     # ---- O4.5 field flow ----------------------------------------------------------------------------------------------------------------------------------
     chk.rule("O4.5", "positional/keyword flow loop arguments -> Sampler.add parameters -> Sample(...) arguments -> Sample attributes lands every value in the attribute of its meaning", 15,
@@ -1899,7 +1913,11 @@ def run(chk):
     if ts is None or not clock_params:
         not_located("O4.5", "the sampler's start timestamp (attribute set from the clock reading every Sampler(...) is constructed with) / the task_start argument of Sample(...)", ctor0)
     else:
-        chk.ob("O4.5", "task_start := sampler start timestamp", is_self_attr(ts) and stamp_attrs.get(ts.attr) in clock_params, ctor0, f"task_start = {u(ts)}")
+        ts_r = _root(ts, all_defs(samp_add))  # (through a local alias of the attribute)
+        if not is_self_attr(ts_r) and isinstance(ts_r, (ast.Call, ast.Await, ast.Name)):
+            not_located("O4.5", f"the task_start argument of Sample(...) `{u(ts)}` is not an attribute of the sampler", ctor0)
+        else:
+            chk.ob("O4.5", "task_start := sampler start timestamp", is_self_attr(ts_r) and stamp_attrs.get(ts_r.attr) in clock_params, ctor0, f"task_start = {u(ts_r)}")
 
     check_execute_single(chk, drv, "O4.6", runs, results={id(r): (result_names(r, hops), call) for r, _, hops in run_sites})
 
@@ -2112,7 +2130,21 @@ def check_execute_single(chk, drv, RID, runs=(), results=None):
     if fin and cannot is not None:
         pass  # the condition was not understood (reported above): no statement about the flag it may consult
     elif not flags or not fsets:
-        if fin:
+        # the abort condition consults no local that a handler of the request binds. It may still learn about the refused connection in another way - a member of the meta
+        # data other than `success`, an attribute, a call: then the flag is not recognised; a condition over the success member and on_error alone knows no fatal error
+        other = []
+        for t, _ in (guards(fin[0]) if fin else ()):
+            for n in ast.walk(t):
+                if isinstance(n, ast.Constant) and isinstance(n.value, str) and n.value != "success" and isinstance(source.parent(n), (ast.Subscript, ast.Call)) \
+                        and any(isinstance(x, ast.Name) and x.id == meta_v for x in ast.walk(source.parent(n))):
+                    other.append(f"the member {n.value!r} of the meta data")
+                elif isinstance(n, ast.Name) and isinstance(n.ctx, ast.Load) and n.id not in (meta_v, *params_of(es)) and n.id in _stored_names(es):
+                    other.append(f"the local `{n.id}`")
+                elif isinstance(n, ast.Call) and resolve_callee(n, drv) is not None:
+                    other.append(f"the helper `{short(n, 40)}`")
+        if fin and other:
+            not_located(f"the error flag of the abort condition: it consults {other[0]}, which no handler of the request binds as a local", fin[0])
+        elif fin:
             chk.ob(RID, "fatal only for the exact ConnectionError type", False, fin[0], "the abort condition consults no flag that a handler of the request raises: a refused connection is not fatal")
     else:
         from sa.exc import Hierarchy, handler_type_names
@@ -2516,4 +2548,99 @@ VARIANTS += [
     [V("h2 break: the extracted recording method only records requests that carried operations", "break", _D, _CALL_HEAD,
        _RECORD_HELPER.replace("        self.sampler.add(\n            self.task,", "        if ops:\n          self.sampler.add(\n            self.task,") + _CALL_HEAD, "O4.4"),
      V("", "break", _D, _ADD_CALL_ARGS, _RECORD_CALL)],
+]
+
+# ---- hardening round 3: the request of an iteration located by role (the request context may be entered in a helper the loop awaits; results followed by position) ---------------------
+_REQ_BLOCK = ("                with self.es[\"default\"].new_request_context() as request_context:\n"
+              "                    total_ops, total_ops_unit, request_meta_data = await execute_single(runner, self.es, params, self.on_error)\n"
+              "                    request_start = request_context.request_start\n                    request_end = request_context.request_end\n")
+_REQ_CALL = "                total_ops, total_ops_unit, request_meta_data, request_start, request_end = await self._execute_request(runner, params)\n"
+_RUN_LINE = "                    total_ops, total_ops_unit, request_meta_data = await execute_single(runner, self.es, params, self.on_error)\n"
+_SPANS_OLD = "                service_time = request_end - request_start\n                processing_time = processing_end - processing_start\n                time_period = request_end - total_start\n"
+_SPANS_CALL = "                service_time, processing_time, time_period = self._spans(request_start, request_end, processing_start, processing_end, total_start)\n"
+_TIMED_OLD = ("                processing_start = time.perf_counter()\n                self.schedule_handle.before_request(processing_start)\n" + _REQ_BLOCK +
+              "\n                processing_end = time.perf_counter()\n")
+_TIMED_CALL = ("                total_ops, total_ops_unit, request_meta_data, request_start, request_end, processing_start, processing_end = await self._timed_request(runner, params)\n")
+
+
+def _req_helper(ret="total_ops, total_ops_unit, request_meta_data, request_start, request_end", inside=True):
+    run = "total_ops, total_ops_unit, request_meta_data = await execute_single(runner, self.es, params, self.on_error)\n"
+    if inside:
+        body = ("        with self.es[\"default\"].new_request_context() as request_context:\n            " + run +
+                "            request_start = request_context.request_start\n            request_end = request_context.request_end\n")
+    else:
+        body = ("        with self.es[\"default\"].new_request_context() as request_context:\n            pass\n        " + run +
+                "        request_start = request_context.request_start\n        request_end = request_context.request_end\n")
+    return "    async def _execute_request(self, runner, params):\n        \"\"\"one request in a request context of its own\"\"\"\n" + body + "        return " + ret + "\n\n"
+
+
+def _spans_helper(ret="request_end - request_start, processing_end - processing_start, request_end - task_start"):
+    return "    @staticmethod\n    def _spans(request_start, request_end, processing_start, processing_end, task_start):\n        return " + ret + "\n\n"
+
+
+def _timed_helper(before="", end_inside=False):
+    return ("    async def _timed_request(self, runner, params):\n        processing_start = time.perf_counter()\n        self.schedule_handle.before_request(processing_start)\n" + before +
+            "        with self.es[\"default\"].new_request_context() as request_context:\n"
+            "            total_ops, total_ops_unit, request_meta_data = await execute_single(runner, self.es, params, self.on_error)\n"
+            "            request_start = request_context.request_start\n            request_end = request_context.request_end\n" +
+            ("            processing_end = time.perf_counter()\n" if end_inside else "        processing_end = time.perf_counter()\n") +
+            "        return total_ops, total_ops_unit, request_meta_data, request_start, request_end, processing_start, processing_end\n\n")
+
+
+VARIANTS += [
+    [V("h3 keep (C18-b6): request context, runner invocation and the reads of start / end extracted into a coroutine method that returns them with the result triple", "keep", _D,
+       _CALL_HEAD, _req_helper() + _CALL_HEAD), V("", "keep", _D, _REQ_BLOCK, _REQ_CALL)],
+    [V("h3 keep: the request helper returns the context object, the loop reads start / end from it (same local name as in the helper)", "keep", _D, _CALL_HEAD,
+       _req_helper("total_ops, total_ops_unit, request_meta_data, request_context") + _CALL_HEAD),
+     V("", "keep", _D, _REQ_BLOCK, "                total_ops, total_ops_unit, request_meta_data, request_context = await self._execute_request(runner, params)\n"
+       "                request_start = request_context.request_start\n                request_end = request_context.request_end\n")],
+    [V("h3 keep: request helper as a module function with its own names, the runner's result handed on as one value and unpacked by a second statement", "keep", _D, _ES_HEAD,
+       "async def _timed_request(es, runner, params, on_error):\n    with es[\"default\"].new_request_context() as ctx:\n        result = await execute_single(runner, es, params, on_error)\n"
+       "        started, ended = ctx.request_start, ctx.request_end\n    return result, started, ended\n\n\n" + _ES_HEAD),
+     V("", "keep", _D, _REQ_BLOCK, "                result, request_start, request_end = await _timed_request(self.es, runner, params, self.on_error)\n"
+       "                total_ops, total_ops_unit, request_meta_data = result\n")],
+    [V("h3 keep: request helper that is handed the context factory and returns the result spread into its tuple (*outcome, start, end)", "keep", _D, _CALL_HEAD,
+       "    async def _in_context(self, new_context, runner, params):\n        with new_context() as ctx:\n            outcome = await execute_single(runner, self.es, params, self.on_error)\n"
+       "        return (*outcome, ctx.request_start, ctx.request_end)\n\n" + _CALL_HEAD),
+     V("", "keep", _D, _REQ_BLOCK,
+       "                total_ops, total_ops_unit, request_meta_data, request_start, request_end = await self._in_context(self.es[\"default\"].new_request_context, runner, params)\n")],
+    [V("h3 keep: the runner invocation extracted into a coroutine method awaited inside the request context", "keep", _D, _CALL_HEAD,
+       "    async def _invoke(self, runner, params):\n        return await execute_single(runner, self.es, params, self.on_error)\n\n" + _CALL_HEAD),
+     V("", "keep", _D, _RUN_LINE, "                    total_ops, total_ops_unit, request_meta_data = await self._invoke(runner, params)\n")],
+    [V("h3 keep: the whole timed section (both clock reads around the request context) extracted into a coroutine method", "keep", _D, _CALL_HEAD, _timed_helper() + _CALL_HEAD),
+     V("", "keep", _D, _TIMED_OLD, _TIMED_CALL)],
+    [V("h3 keep: service time, processing time and time period computed by one helper that returns the three differences", "keep", _D, _CALL_HEAD, _spans_helper() + _CALL_HEAD),
+     V("", "keep", _D, _SPANS_OLD, _SPANS_CALL)],
+    V("h3 keep: start / end of the request read after the request context by one tuple assignment", "keep", _D, _REQ_BLOCK,
+      "                with self.es[\"default\"].new_request_context() as request_context:\n" + _RUN_LINE +
+      "                request_start, request_end = request_context.request_start, request_context.request_end\n"),
+    V("h3 keep: the request wrapped in try / finally (a debug line when it is done)", "keep", _D, _REQ_BLOCK,
+      "                try:\n" + "".join("    " + l + "\n" for l in _REQ_BLOCK.splitlines()) + "                finally:\n                    self.logger.debug(\"request done\")\n"),
+    [V("h3 keep: the sampler's start timestamp handed to Sample(...) through a local", "keep", _D, "                    self.start_timestamp,\n", "                    started,\n"),
+     V("", "keep", _D, "        try:\n            self.q.put_nowait(\n", "        started = self.start_timestamp\n        try:\n            self.q.put_nowait(\n")],
+    [V("h3 break: the request helper returns end and start of the request the other way round", "break", _D, _CALL_HEAD,
+       _req_helper("total_ops, total_ops_unit, request_meta_data, request_end, request_start") + _CALL_HEAD, "O4.1"), V("", "break", _D, _REQ_BLOCK, _REQ_CALL)],
+    [V("h3 break: the request helper invokes the runner after it has left the request context", "break", _D, _CALL_HEAD, _req_helper(inside=False) + _CALL_HEAD, "O4.2"),
+     V("", "break", _D, _REQ_BLOCK, _REQ_CALL)],
+    [V("h3 break: the request helper returns unit and number of operations the other way round", "break", _D, _CALL_HEAD,
+       _req_helper("total_ops_unit, total_ops, request_meta_data, request_start, request_end") + _CALL_HEAD, "O4."), V("", "break", _D, _REQ_BLOCK, _REQ_CALL)],
+    [V("h3 break: request helper shape, processing_start taken after the request", "break", _D, _CALL_HEAD, _req_helper() + _CALL_HEAD, "O4.2"),
+     V("", "break", _D, _STAMPS + "                self.schedule_handle.before_request(processing_start)\n" + _REQ_BLOCK,
+       "                absolute_processing_start = time.time()\n" + _REQ_CALL + "                processing_start = time.perf_counter()\n                self.schedule_handle.before_request(processing_start)\n")],
+    [V("h3 break: request helper shape, the loop is left between the finished request and its sample", "break", _D, _CALL_HEAD, _req_helper() + _CALL_HEAD, "O4.4"),
+     V("", "break", _D, _REQ_BLOCK, _REQ_CALL),
+     V("", "break", _D, "                throughput = request_meta_data.pop(\"throughput\", None)\n", "                throughput = request_meta_data.pop(\"throughput\", None)\n                if total_ops == 0:\n                    break\n")],
+    [V("h3 break: request helper shape, the sleep-until is gone", "break", _D, _CALL_HEAD, _req_helper() + _CALL_HEAD, "O4.3"), V("", "break", _D, _REQ_BLOCK, _REQ_CALL),
+     V("", "break", _D, "                    if rest > 0:\n                        await asyncio.sleep(rest)\n", "                    pass\n")],
+    [V("h3 break: the timed-section helper reads processing_end inside the request context", "break", _D, _CALL_HEAD, _timed_helper(end_inside=True) + _CALL_HEAD, "O4.2"),
+     V("", "break", _D, _TIMED_OLD, _TIMED_CALL)],
+    [V("h3 break: the timed-section helper sleeps between processing_start and the request", "break", _D, _CALL_HEAD,
+       _timed_helper(before="        await asyncio.sleep(0.001)\n") + _CALL_HEAD, "O4.2"), V("", "break", _D, _TIMED_OLD, _TIMED_CALL)],
+    [V("h3 break: the spans helper measures the service time up to processing_end", "break", _D, _CALL_HEAD,
+       _spans_helper("processing_end - request_start, processing_end - processing_start, request_end - task_start") + _CALL_HEAD, "O4.1"), V("", "break", _D, _SPANS_OLD, _SPANS_CALL)],
+    V("h3 break: the sample is only recorded in an except handler", "break", _D, "                self.sampler.add(\n",
+      "                try:\n                    pass\n                except Exception:\n                  self.sampler.add(\n", "O4.4"),
+    V("h3 break: two calls record the sample on one path of an iteration (the first one under a condition)", "break", _D, _ADD_CALL_ARGS,
+      "                if throughput_throttled:\n" + "".join("    " + l + "\n" for l in _ADD_CALL_ARGS.splitlines()) + _ADD_CALL_ARGS, "O4.4"),
+    V("h3 break: the abort condition consults no error flag at all", "break", _D, "        if on_error == \"abort\" or fatal_error:", "        if on_error == \"abort\":", "O4.6"),
 ]
